@@ -33,8 +33,9 @@ def keeper_op(v):
     return {"op": "set_key", "guid": G[v], "key": K[v]}
 
 
-def sign_events(ev, route_of):
-    """-> list of (tag/id, announced guid or None, verifying guid or None)"""
+def sign_events(ev, route_of, keys=None):
+    """-> list of (tag/id, announced guid or None, verifying guid or None), one entry per authorization header VALUE"""
+    keys = keys or KEYS
     out = []
     cur_own = None
     for e in ev:
@@ -50,9 +51,10 @@ def sign_events(ev, route_of):
             if not auth:
                 out.append((rid, None, None, e))
                 continue
-            a = canon.parse_auth(auth[0])
-            ver = canon.verifying_key(auth[0], KEYS, e["method"], e["target"], hs, body)
-            out.append((rid, a["guid"] if a else "?", ver, e))
+            for av in auth:
+                a = canon.parse_auth(av)
+                ver = canon.verifying_key(av, keys, e["method"], e["target"], hs, body)
+                out.append((rid, a["guid"] if a else "?", ver, e))
     return out
 
 
@@ -183,6 +185,57 @@ def run(c):
             stress += 1
             rows.append({"e": "sign", "signer": "stress", "guid": g, "verifies": v or "none", "id": rid or "own", "hist": []})
     c.extra["stress_signatures"] = stress
+    # 4a. requests that already carry an authorization header (forged, or replayed from a rotated-away key): every value the
+    #     host receives under that name must pair an id with a MAC made under that id's secret
+    forged = "Azure-HMAC-SHA256 %s %s" % (G["k2"], "0" * 64)
+    fsteps = [keeper_op("k1")]
+    for i in range(6):
+        cn = "fg%d" % i
+        fsteps += [{"op": "connect", "conn": cn, "attr": {"uid": 0, "admin": 1, "dip": "168.63.129.16", "dport": 80}},
+                   {"op": "request", "conn": cn, "id": "fg%d" % i, "method": "GET", "target": "/machine?comp=goalstate&n=%d" % i,
+                    "headers": [["Host", "h"], [rnd.choice(["x-ms-azure-host-authorization", "X-MS-Azure-Host-Authorization"]), forged]]},
+                   {"op": "request", "conn": cn, "id": "fh%d" % i, "method": "GET", "target": "/machine?comp=goalstate&m=%d" % i,
+                    "headers": [["Host", "h"]]},
+                   {"op": "close", "conn": cn}]
+    ev, d, _ = rig.run_rig({"steps": fsteps, "drain_ms": 200}, "c10_forged", timeout=300)
+    nf = 0
+    for rid, g, v, e in sign_events(ev, None):
+        c.count()
+        if g is not None:
+            nf += 1
+            rows.append({"e": "sign", "signer": "proxy-client-header", "guid": g, "verifies": v or "none", "id": rid or "own", "hist": []})
+    if nf < 12:
+        raise util.ToolError("forged-header scenario: only %d authorization headers reached the host" % nf)
+    c.extra["requests_with_client_authorization_header"] = 6
+    # 4c. the real key keeper re-latches: the host still names key A (whose file the guest lost) and issues a fresh key B on
+    #     the acquire; attestation, the agent's own calls and proxied requests must all name the key whose secret made the MAC
+    from checks import c12
+    A, B = "aaaaaaaa-0000-4000-8000-00000000000a", "bbbbbbbb-0000-4000-8000-00000000000b"
+    SB = "5b" * 32
+    rsteps = [c12.plan("GET /secure-channel/status", 200, c12.status_doc(A)),
+              c12.plan("POST /secure-channel/key", 200, c12.key_doc(B, SB)),
+              c12.plan("POST /secure-channel/key/*", 200, ""),
+              {"op": "start_key_keeper", "interval_ms": 40}, {"op": "sleep", "ms": 500},
+              {"op": "key_state", "tag": "relatch"}]
+    for i in range(4):
+        cn = "rl%d" % i
+        rsteps += [{"op": "connect", "conn": cn, "attr": {"uid": 0, "admin": 1, "dip": "168.63.129.16", "dport": 80}},
+                   {"op": "request", "conn": cn, "id": "rl%d" % i, "method": "GET", "target": "/machine?comp=goalstate&r=%d" % i, "headers": [["Host", "h"]]},
+                   {"op": "close", "conn": cn}]
+    rsteps += [{"op": "own_call", "kind": "goalstate", "tag": "rl_own"},
+               c12.plan("GET /secure-channel/status", 200, c12.status_doc(B)), {"op": "sleep", "ms": 300},
+               {"op": "own_call", "kind": "imds", "tag": "rl_own2"}]
+    ev, d, _ = rig.run_rig({"steps": rsteps, "drain_ms": 200}, "c10_relatch", timeout=300)
+    rows.append({"e": "issue", "guid": B})
+    nr = 0
+    for rid, g, v, e in sign_events(ev, None, keys={B: SB}):
+        c.count()
+        if g is not None:
+            nr += 1
+            rows.append({"e": "sign", "signer": "relatch:" + (e["target"][:40]), "guid": g, "verifies": v or "none", "id": rid or "keykeeper", "hist": []})
+    if nr < 3:
+        raise util.ToolError("re-latch scenario: only %d authorization headers reached the host (key keeper did not latch?)" % nr)
+    c.extra["relatch_signatures"] = nr
     # 4b. the signing helper under concurrent use with two keys
     sg = rig.fn_table([{"kind": "sig_stress", "keys": [K["k1"], K["k2"]], "threads": 6, "iters": 20000 if not thorough else 300000}],
                       "c10_sig", timeout=900)[0]
